@@ -73,10 +73,13 @@ def make_spec(rng, kind_grid, regime):
             gwn = native
         else:
             step = int(rng.integers(2, 5))
+            if rng.random() < 0.4:
+                step = int(rng.integers(6, 11))         # a much coarser molecule: narrow windows fit between two of its points
             gwn = native[int(rng.integers(0, step))::step]
             if len(gwn) < 2:
                 gwn = native
         ops.append(fm.gen_opacity(rng, g['mol'], gwn, r[0], r[1], nT=int(rng.integers(2, 4)), nP=int(rng.integers(2, 4))))
+        g['_wn'] = gwn
     spec['opacities'] = ops
     for c in spec['cia']:
         pass
@@ -311,7 +314,20 @@ def run_models(ctx):
         i = int(ctx.rng.integers(1, len(nat) // 2))
         j = int(ctx.rng.integers(len(nat) // 2, len(nat) - 1))
         g = nat[i:j + 1].copy()
-        for req_kind, req in (('subrange', g), ('obs', None)):
+        # a narrow window lying strictly between two neighbouring native points of a coarser molecule (that molecule is
+        # then interpolated between points OUTSIDE the window)
+        narrow = None
+        for gs in spec['gases'][1:]:
+            cw = np.asarray(gs.get('_wn', []), float)
+            ci = np.searchsorted(nat, cw)
+            gaps = [(a, b) for a, b in zip(ci[:-1], ci[1:]) if b - a >= 6]
+            if gaps:
+                a, b = gaps[int(ctx.rng.integers(0, len(gaps)))]
+                mid = (a + b) // 2
+                narrow = nat[mid:mid + 2].copy()
+                break
+        reqs = [('subrange', g), ('obs', None)] + ([('narrow-between-coarse-points', narrow)] if narrow is not None else [])
+        for req_kind, req in reqs:
             cond = True
             widths = None
             if req_kind == 'obs':
@@ -352,18 +368,66 @@ def run_models(ctx):
             # ---- binned equality under the width condition
             if req_kind == 'obs' and cond:
                 judge_binned(ctx, gk, nat, full, rn, rv, req, widths, case, band, tiny)
+        # ---- the per-contribution and per-component runs restrict the grid in the same way (quota: every third model)
+        if k % 3 == 0:
+            try:
+                fcn, fcl = model.model_contrib()
+                rcn, rcl = model.model_contrib(wngrid=g, cutoff_grid=True)
+                ffn, ffd = model.model_full_contrib()
+                rfn, rfd = model.model_full_contrib(wngrid=g, cutoff_grid=True)
+            except Exception as e:
+                ctx.violation('contrib-restricted-raises', 'model_contrib / model_full_contrib raised %r on a sub-range request'
+                              % (e,), dict(base, request='contrib', req=g))
+                rcn = None
+            if rcn is not None:
+                ctx.bucket('%s:contrib-restricted' % kind)
+                runs = [('model_contrib', np.asarray(rcn), {n_: np.asarray(v_[0]) for n_, v_ in rcl.items()},
+                         {n_: np.asarray(v_[0]) for n_, v_ in fcl.items()})]
+                runs.append(('model_full_contrib', np.asarray(rfn),
+                             {'%s/%s' % (cn_, c[0]): np.asarray(c[1]) for cn_, lst in rfd.items() for c in lst},
+                             {'%s/%s' % (cn_, c[0]): np.asarray(c[1]) for cn_, lst in ffd.items() for c in lst}))
+                rn_ref = np.asarray(model.model(wngrid=g, cutoff_grid=True)[0])
+                for which, rgrid, rvals, fvals in runs:
+                    ccase = dict(base, request=which, req=g)
+                    ctx.disagreements_checked += 1
+                    if not np.array_equal(rgrid, rn_ref):
+                        ctx.violation('contrib-restricted-grid:' + which, '%s(wngrid=g) does not run on the native grid '
+                                      'restricted to the request as model(wngrid=g) does (%d points against %d)'
+                                      % (which, len(rgrid), len(rn_ref)), ccase)
+                        continue
+                    idx = np.searchsorted(nat, rgrid)
+                    for name in sorted(fvals):
+                        if name not in rvals:
+                            ctx.violation('contrib-restricted-missing:' + which, 'component %s missing from the restricted run'
+                                          % name, ccase)
+                            continue
+                        d_ = np.abs(rvals[name] - fvals[name][idx])
+                        if np.any(d_ > band + tiny):
+                            ctx.violation('contrib-restricted-differs:' + which, 'the spectrum of %s at a wavenumber changed '
+                                          'when other wavenumbers were not computed' % name, ccase,
+                                          dict(maxdiff=float(d_.max()), band=band))
+                            break
         # ---- a sequence of restricted runs on the SAME model object: equal-length windows at different places
         # (every likelihood evaluation of a retrieval re-uses the model; anything cached per grid *length* shows here)
         m = int(ctx.rng.integers(4, max(5, len(nat) // 3)))
         starts = [int(x) for x in ctx.rng.choice(np.arange(1, len(nat) - m - 1), size=3, replace=True)]
+        buf = np.empty(m)          # ONE request array object, refilled in place (what a caller re-using a buffer does)
         for s0 in starts:
-            g2 = nat[s0:s0 + m].copy()
+            buf[:] = nat[s0:s0 + m]
+            g2 = buf
             rn, rv, rt, _ = model.model(wngrid=g2, cutoff_grid=True)
             rn = np.asarray(rn)
+            # the run must cover THIS request: the native points the documented clip keeps for it
+            check_clip(ctx, nat, g2.copy(), rn, dict(base, request='window-sequence', req=g2.copy(), starts=starts))
+            if not (rn.min() <= g2.min() and rn.max() >= g2.max()):
+                ctx.violation('restricted-run-misses-request', 'a restricted run on a re-used model / request buffer does not '
+                              'cover the requested window', dict(base, request='window-sequence', req=g2.copy(), starts=starts),
+                              dict(returned=[float(rn.min()), float(rn.max())], requested=[float(g2.min()), float(g2.max())]))
+                break
             idx = np.searchsorted(nat, rn)
             if not np.all(nat[np.minimum(idx, len(nat) - 1)] == rn):
                 ctx.violation('restricted-grid-not-native-points', 'restricted run returned points that are not native points',
-                              dict(base, request='window-sequence', req=g2))
+                              dict(base, request='window-sequence', req=g2.copy()))
                 continue
             diff = np.abs(np.asarray(rv) - np.asarray(full)[idx])
             ctx.disagreements_checked += 1
@@ -371,7 +435,7 @@ def run_models(ctx):
             if np.any(diff > band + tiny):
                 ctx.violation('restricted-differs:sequence:' + kind,
                               'a restricted run following another restricted run on the same model differs from the full run '
-                              '(beyond the licensed cut-off band)', dict(base, request='window-sequence', req=g2, starts=starts),
+                              '(beyond the licensed cut-off band)', dict(base, request='window-sequence', req=g2.copy(), starts=starts),
                               dict(maxdiff=float(diff.max()), band=band))
                 break
         # and the full run again afterwards must reproduce the first full run
